@@ -2,6 +2,8 @@
 """regenerates MANIFEST.json from the table below (kept valid at all times)"""
 import json
 CLAIMED = {
+ "C02": ("no internal failure: the compiler cannot drop a live Register (drop bomb); every always-on arithmetic panic (÷0, %0, MIN/-1, -MIN) is guarded or has a never-zero divisor",
+         "typestate on drop-elaborated MIR + reaching-definition / dominating-comparison classification of every arithmetic Assert terminator", "§5 C02"),
  "C10": ("GC transparency: Trace completeness of every workspace type (no GC edge in a field the trace body skips), WeakRef kept-alive protocol",
          "type reachability fixpoint over ADT facts + MIR field-visit analysis of every Trace impl; path rules for AddToKeptObjects/ClearKeptObjects", "§5 C10"),
  "C03": ("compiled code blocks: register linearity and frame size, scope / jump-control / handler pairing on every compiler path, binding-reference window, labels consumed",
